@@ -13,7 +13,7 @@ import (
 func init() {
 	core.Register(&core.Property{
 		ID:   "C02",
-		Rule: "data frames from the frame generator (all 4 data MTypes, FOpts 0..15, FPort absent/0/>0, payloads up to the 242-byte limit so messages span 1..16 CMAC blocks) x random 128-bit keys x MAC version 1.0/1.1 x confFCnt/txDR/txCh incl. boundary values; Set*DataMIC output is compared with an independent RFC 4493 CMAC over the spec's own B0/B1 blocks and the spec model's own serialisation; then one perturbation round per frame changes each authenticated and each excluded input alone and Validate* must answer exactly what the model says for the perturbed inputs. Distinct = (direction, version, ACK, message-length block class, perturbation class).",
+		Rule: "data frames from the frame generator (all 4 data MTypes, FOpts 0..15, FPort absent/0/>0, payloads up to the 242-byte limit and, in one case of eight, up to 255 bytes, so messages span 1..18 CMAC blocks) x random 128-bit keys x MAC version 1.0/1.1 x confFCnt/txDR/txCh incl. boundary values; Set*DataMIC output is compared with an independent RFC 4493 CMAC over the spec's own B0/B1 blocks and the spec model's own serialisation; then one perturbation round per frame changes each authenticated and each excluded input alone and Validate* must answer exactly what the model says for the perturbed inputs. Distinct = (direction, version, ACK, message-length block class, perturbation class).",
 		Assumptions: []string{
 			"crypto/aes of the Go standard library is trusted; the CMAC on top of it is the harness' own RFC 4493 implementation (the library uses jacobsa/crypto/cmac)",
 			"LoRaWAN 1.1 §4.4: ConfFCnt is used only when ACK is set (uplink) and, for downlinks, only in 1.1; taken modulo 2^16",
@@ -79,7 +79,11 @@ var perturbations = []perturbation{
 	{"ack", nil, func(r *core.RNG, d *dataCase, p *micParams) { d.Spec.ACK = !d.Spec.ACK }},
 	{"bit4", nil, func(r *core.RNG, d *dataCase, p *micParams) {
 		d.Spec.Bit4 = !d.Spec.Bit4
-		d.FPending, d.ClassB = d.Spec.Bit4, false
+		if d.Spec.Uplink() {
+			d.ClassB, d.FPending = d.Spec.Bit4, false
+		} else {
+			d.FPending, d.ClassB = d.Spec.Bit4, false
+		}
 	}},
 	{"fcnt-low", nil, func(r *core.RNG, d *dataCase, p *micParams) { d.Spec.FCnt ^= 1 << uint(r.Intn(16)) }},
 	{"fcnt-high", nil, func(r *core.RNG, d *dataCase, p *micParams) { d.Spec.FCnt ^= 1 << uint(16+r.Intn(16)) }},
@@ -210,6 +214,9 @@ func runC02(c *core.Ctx) {
 		o := anyData()
 		if r.Chance(7, 10) {
 			o.rawFOpts, o.macInFRM = 1, 0
+		}
+		if r.Chance(1, 8) {
+			o.maxFRM = 255 // the property's "multi-block lengths up to 255 bytes": beyond the regional 242-byte limit
 		}
 		d := genDataCase(r, o)
 		p := micParams{v11: r.Bool(), conf: r.U32Edge(), txDR: r.Byte(), txCh: r.Byte(), fKey: key16(r), sKey: key16(r)}
